@@ -1047,7 +1047,7 @@ func (vc *VC) digitAxioms() string {
 		return ""
 	}
 	var b strings.Builder
-	b.WriteString("(declare-fun dv (Str) Real)\n(declare-fun isdig (Str) Bool)\n(declare-fun decstr (Int) Str)\n(declare-fun zeros (Int) Str)\n(declare-fun dpow10u (Int) Int)\n")
+	b.WriteString("(declare-fun dv (Str) Real)\n(declare-fun dvalid (Str) Bool)\n(declare-fun dnumeral (Str) Bool)\n(declare-fun isdig (Str) Bool)\n(declare-fun decstr (Int) Str)\n(declare-fun zeros (Int) Str)\n(declare-fun dpow10u (Int) Int)\n")
 	b.WriteString("(define-fun dpow10 ((d Int)) Int ")
 	p := "1"
 	for k := 0; k <= 20; k++ {
@@ -1089,8 +1089,15 @@ func (vc *VC) digitAxioms() string {
 		// integer part, point, fraction
 		fmt.Fprintf(&b, "(assert (forall ((a Str) (f Str)) (! (=> (and (isdig a) (isdig f)) (= (dv (str-cat a (str-cat %s f))) (+ (dv a) (/ (dv f) (to_real (dpow10 %s)))))) :pattern ((str-cat a (str-cat %s f))))))\n", dot.S, lenOf("f"), dot.S)
 	}
+	// what big.ParseFloat accepts (the part of its grammar the formatter can produce): an unsigned numeral is a
+	// non-empty digit string, or digits '.' digits with at least one digit in total; an optional '-' in front
+	b.WriteString("(assert (forall ((s Str)) (! (=> (and (isdig s) (not (= (str-len s) " + z + "))) (dnumeral s)) :pattern ((isdig s)))))\n")
+	if dot.S != "" {
+		fmt.Fprintf(&b, "(assert (forall ((a Str) (f Str)) (! (=> (and (isdig a) (isdig f) (not (and (= (str-len a) %s) (= (str-len f) %s)))) (dnumeral (str-cat a (str-cat %s f)))) :pattern ((str-cat a (str-cat %s f))))))\n", z, z, dot.S, dot.S)
+	}
+	b.WriteString("(assert (forall ((s Str)) (! (=> (dnumeral s) (dvalid s)) :pattern ((dnumeral s)))))\n")
 	if minus.S != "" {
-		fmt.Fprintf(&b, "(assert (forall ((s Str)) (! (= (dv (str-cat %s s)) (- (dv s))) :pattern ((str-cat %s s)))))\n", minus.S, minus.S)
+		fmt.Fprintf(&b, "(assert (forall ((s Str)) (! (and (= (dv (str-cat %s s)) (- (dv s))) (=> (dnumeral s) (dvalid (str-cat %s s)))) :pattern ((str-cat %s s)))))\n", minus.S, minus.S, minus.S)
 	}
 	if empty.S != "" {
 		fmt.Fprintf(&b, "(assert (forall ((s Str)) (! (= (str-cat %s s) s) :pattern ((str-cat %s s)))))\n", empty.S, empty.S)
